@@ -151,6 +151,7 @@ class Repo:
         self.funcs: dict[str, Func] = {}
         self.classes: dict[str, ClassInfo] = {}  # by simple class name
         self.consulted: dict[str, str] = {}  # rel path -> digest
+        self.normalisation: dict = {}
         self._load()
 
     # ------------------------------------------------------------------ load
@@ -167,7 +168,16 @@ class Repo:
                 raise AnalysisError(f"syntax error in {path}: {e}") from e
             mod = Module(name, path, src, tree, hashlib.sha256(src.encode()).hexdigest())
             self.modules[name] = mod
+        # canonical spelling (renames undone, new helpers inlined, walrus hoisted) before anything is indexed
+        from .normalize import normalize_trees
+
+        self.normalisation = normalize_trees({n: m.tree for n, m in self.modules.items()})
+        for mod in self.modules.values():
             self._index(mod)
+        if not self.normalisation.get("disabled"):
+            from .aliases import propagate_aliases
+
+            self.normalisation["aliases"] = propagate_aliases(self)
 
     def _index(self, mod: Module) -> None:
         def visit(body: list[ast.stmt], prefix: str, cls: ClassInfo | None, parent: Func | None) -> None:
